@@ -533,6 +533,13 @@ def shard(ctx):
         seeds = seeds_for(spec, rng)
         for d in docs:
             judge(ctx, spec, d, rng.choice(['block', 'flow', 'json']), seeds)
+            if rng.random() < 0.25:
+                # one scalar node at two positions (anchor and alias)
+                a2 = D.alias_two_scalars(d, rng)
+                if a2 is not None:
+                    ctx.count('documents_with_aliased_scalar')
+                    judge(ctx, spec, a2, rng.choice(['block', 'flow']),
+                          seeds)
 
 
 def replay(ctx, case):
